@@ -106,3 +106,208 @@ Proof.
     { rewrite E. cbn [starts_with]. apply digit_range in Hc. unfold ch_plus. lia. }
     rewrite S, (parse_biguint_denotes _ _ D). reflexivity.
 Qed.
+
+(* ------------------------------------------------------------------------------------------------------------ *)
+(* Parse side: what the parsers accept.  An accepted literal denotes exactly one number, and that number's printed
+   form is the literal with the optional sign / leading zeros (/ underscores) normalised: from_str s = Ok n -> canon s = to_str n.
+   Strict injectivity is false by design of the Rust parsers: "+1", "007", "-0" (signed), "1_0" (BigInt) are accepted. *)
+
+Definition canon_form (ds : text) (n : N) : Prop :=
+  (n = 0 /\ ds = [48]) \/ (n <> 0 /\ exists c r, ds = c :: r /\ c <> 48).
+
+Lemma digits_aux_canon fuel : forall n acc, fuel <> O -> n < 10 ^ N.of_nat fuel ->
+  exists ds, digits_aux fuel n acc = ds ++ acc /\ canon_form ds n.
+Proof.
+  induction fuel as [|f IH]; intros n acc F B; [congruence|]. cbn [digits_aux].
+  destruct (n <? 10) eqn:T.
+  - exists [48 + n mod 10]. split; [reflexivity|]. rewrite N.mod_small by lia.
+    destruct (N.eq_dec n 0) as [-> | NZ]; [left; split; reflexivity | right; split; [exact NZ|]; exists (48 + n), []; split; [reflexivity | lia]].
+  - assert (F' : f <> O) by (intros ->; change (10 ^ N.of_nat 1) with 10 in B; lia).
+    assert (B' : n / 10 < 10 ^ N.of_nat f).
+    { apply N.div_lt_upper_bound; [lia|]. rewrite Nat2N.inj_succ, N.pow_succ_r' in B. exact B. }
+    destruct (IH (n / 10) ((48 + n mod 10) :: acc) F' B') as [ds [E C]].
+    exists (ds ++ [48 + n mod 10]). split; [rewrite E, <- app_assoc; reflexivity|].
+    assert (Q : n / 10 <> 0) by (intros Z; apply N.div_small_iff in Z; lia).
+    right. split; [lia|]. destruct C as [[Z _] | [_ [c [r [-> Hc]]]]]; [congruence|]. exists c, (r ++ [48 + n mod 10]). split; [reflexivity | exact Hc].
+Qed.
+
+Lemma print_N_canon n : canon_form (print_N n) n.
+Proof.
+  unfold print_N. destruct (digits_aux_canon (S (N.to_nat (N.log2 n))) n []) as [ds [E C]]; [congruence | |].
+  - rewrite Nat2N.inj_succ, N2Nat.id. destruct (N.eq_dec n 0) as [-> | NZ]; [reflexivity|].
+    pose proof (N.log2_spec n). pose proof (pow2_le_pow10 (N.succ (N.log2 n))). lia.
+  - rewrite E, app_nil_r. exact C.
+Qed.
+
+(* value of a digit string, most significant digit first *)
+Fixpoint dval (ds : text) : N :=
+  match ds with [] => 0 | c :: r => (c - 48) * 10 ^ N.of_nat (length r) + dval r end.
+
+Lemma dval_bound ds : Forall digit ds -> dval ds < 10 ^ N.of_nat (length ds).
+Proof.
+  induction 1 as [|c r Hc _ IH]; cbn [dval length]; [reflexivity|].
+  apply digit_range in Hc. rewrite Nat2N.inj_succ, N.pow_succ_r'. nia.
+Qed.
+
+Lemma parse_digits_dval ds : Forall digit ds -> forall a, parse_digits ds a = Some (a * 10 ^ N.of_nat (length ds) + dval ds).
+Proof.
+  induction 1 as [|c r Hc _ IH]; intros a; cbn [parse_digits dval length].
+  - f_equal. change (10 ^ N.of_nat 0) with 1. lia.
+  - unfold digit in Hc. rewrite Hc, IH. f_equal. rewrite Nat2N.inj_succ, N.pow_succ_r'. lia.
+Qed.
+
+Lemma parse_digits_all ds a n : parse_digits ds a = Some n -> Forall digit ds.
+Proof.
+  revert a. induction ds as [|c r IH]; intros a H; [constructor|]. cbn [parse_digits] in H.
+  destruct (is_digit c) eqn:D; [|discriminate]. constructor; [exact D | eauto].
+Qed.
+
+(* two digit strings of the same length with the same value are equal *)
+Lemma dval_inj d1 : forall d2, Forall digit d1 -> Forall digit d2 -> length d1 = length d2 -> dval d1 = dval d2 -> d1 = d2.
+Proof.
+  induction d1 as [|c1 r1 IH]; intros [|c2 r2] F1 F2 L V; try discriminate; [reflexivity|].
+  inversion F1 as [|? ? H1 F1']; inversion F2 as [|? ? H2 F2']; subst. cbn [length] in L. injection L as L.
+  cbn [dval] in V. rewrite L in V. pose proof (dval_bound r1 F1') as B1. pose proof (dval_bound r2 F2') as B2. rewrite L in B1.
+  apply digit_range in H1, H2.
+  set (P := 10 ^ N.of_nat (length r2)) in *.
+  assert (E1 : c1 - 48 = c2 - 48).
+  { rewrite (N.div_unique ((c1 - 48) * P + dval r1) P (c1 - 48) (dval r1) B1 ltac:(lia)).
+    rewrite V. symmetry. apply (N.div_unique _ P (c2 - 48) (dval r2) B2). lia. }
+  assert (E2 : dval r1 = dval r2) by (rewrite E1 in V; lia).
+  f_equal; [lia | apply IH; assumption].
+Qed.
+
+(* a canonical non-zero string of length k has a value in [10^(k-1), 10^k) *)
+Lemma dval_lower c r : digit c -> c <> 48 -> 10 ^ N.of_nat (length r) <= dval (c :: r).
+Proof. intros Hc NZ. apply digit_range in Hc. cbn [dval]. nia. Qed.
+
+Lemma canon_unique d1 d2 n : Forall digit d1 -> Forall digit d2 -> dval d1 = n -> dval d2 = n ->
+  canon_form d1 n -> canon_form d2 n -> d1 = d2.
+Proof.
+  intros F1 F2 V1 V2 [[Z1 E1] | [NZ1 [c1 [r1 [E1 H1]]]]] [[Z2 E2] | [NZ2 [c2 [r2 [E2 H2]]]]]; try congruence.
+  subst d1 d2. inversion F1; inversion F2; subst.
+  assert (L : length r1 = length r2).
+  { destruct (Nat.lt_trichotomy (length r1) (length r2)) as [Lt | [Eq | Gt]]; [exfalso | exact Eq | exfalso].
+    - pose proof (dval_bound (c1 :: r1) F1) as B. pose proof (dval_lower c2 r2 ltac:(assumption) H2) as Lo.
+      cbn [length] in B. assert (10 ^ N.of_nat (S (length r1)) <= 10 ^ N.of_nat (length r2)) by (apply N.pow_le_mono_r; lia). lia.
+    - pose proof (dval_bound (c2 :: r2) F2) as B. pose proof (dval_lower c1 r1 ltac:(assumption) H1) as Lo.
+      cbn [length] in B. assert (10 ^ N.of_nat (S (length r2)) <= 10 ^ N.of_nat (length r1)) by (apply N.pow_le_mono_r; lia). lia. }
+  apply dval_inj; [exact F1 | exact F2 | cbn [length]; lia | congruence].
+Qed.
+
+Lemma print_N_dval n : Forall digit (print_N n) /\ dval (print_N n) = n.
+Proof.
+  pose proof (print_N_denotes n) as D. pose proof D as [F _]. split; [exact F|].
+  pose proof (denotes_parse _ _ D) as P. rewrite (parse_digits_dval _ F) in P. injection P as P. lia.
+Qed.
+
+Lemma strip_zeros_spec ds : Forall digit ds ->
+  Forall digit (strip_zeros ds) /\ dval (strip_zeros ds) = dval ds /\
+  (strip_zeros ds = [] \/ exists c r, strip_zeros ds = c :: r /\ c <> 48).
+Proof.
+  induction 1 as [|c r Hc F IH]; cbn [strip_zeros]; [split; [constructor | split; [reflexivity | left; reflexivity]]|].
+  unfold ch_zero. destruct (c =? 48) eqn:E.
+  - apply N.eqb_eq in E. subst c. destruct IH as [F' [V C]]. split; [exact F' | split; [|exact C]]. rewrite V. cbn [dval]. lia.
+  - split; [constructor; assumption | split; [reflexivity | right; exists c, r; split; [reflexivity | lia]]].
+Qed.
+
+(* the heart: the canonical form of an all-digit body is the printed form of its value *)
+Lemma canon_digits_print body n : body <> [] -> parse_digits body 0 = Some n -> canon_digits body = print_N n.
+Proof.
+  intros NE P. pose proof (parse_digits_all _ _ _ P) as F. rewrite (parse_digits_dval _ F) in P. injection P as P.
+  destruct (strip_zeros_spec body F) as [Fs [Vs Cs]]. destruct (print_N_dval n) as [Fp Vp].
+  unfold canon_digits. destruct Cs as [E | [c [r [E Hc]]]]; rewrite E in *.
+  - assert (Hn : n = 0) by (cbn in Vs; lia). rewrite Hn. reflexivity.
+  - assert (NZ : n <> 0).
+    { pose proof (dval_lower c r ltac:(inversion Fs; assumption) Hc) as Lo.
+      assert (0 < 10 ^ N.of_nat (length r)) by (apply N.neq_0_lt_0, N.pow_nonzero; lia). lia. }
+    apply (canon_unique (c :: r) (print_N n) n Fs Fp); [lia | exact Vp | right; split; [exact NZ | eauto] | apply print_N_canon].
+Qed.
+
+(* BigNum::from_str: an accepted text is the printed number up to one '+' and leading zeros *)
+Theorem parse_u64_canon s n : parse_u64 s = Ok n -> n < two64 /\ canon_unsigned s = print_N n.
+Proof.
+  assert (G : forall body, match body with [] => Err | _ :: _ => match parse_digits body 0 with
+                             | Some v => if v <? two64 then Ok v else Err | None => Err end end = Ok n ->
+                           n < two64 /\ canon_digits body = print_N n).
+  { intros body. destruct body as [|b0 b]; [discriminate|].
+    destruct (parse_digits (b0 :: b) 0) as [v|] eqn:P; [|discriminate]. destruct (v <? two64) eqn:T; [|discriminate].
+    intros X. injection X as <-. split; [lia|]. apply canon_digits_print; [discriminate | exact P]. }
+  unfold parse_u64, canon_unsigned. destruct s as [|c r]; [discriminate|]. destruct (c =? ch_plus); [apply G | apply (G (c :: r))].
+Qed.
+
+(* parse::<i128>: an accepted text is the printed number up to a '+', leading zeros, and "-0" for 0 *)
+Theorem parse_i128_canon s z : parse_i128 s = Ok z -> (- two127 <= z < two127)%Z /\ canon_signed s = print_Z z.
+Proof.
+  assert (T127 : (0 < two127)%Z) by reflexivity.
+  unfold parse_i128, canon_signed. destruct s as [|c r]; [discriminate|]. unfold ch_plus, ch_minus.
+  destruct (c =? 43) eqn:E1; [|destruct (c =? 45) eqn:E2].
+  - destruct r as [|r0 r']; [intros X; discriminate X|]. destruct (parse_digits (r0 :: r') 0) as [v|] eqn:P; [|intros X; discriminate X].
+    destruct (Z.of_N v <? two127)%Z eqn:T; [|intros X; discriminate X]. intros X. injection X as <-. split; [lia|].
+    rewrite (canon_digits_print (r0 :: r') v ltac:(discriminate) P). destruct v; reflexivity.
+  - destruct r as [|r0 r']; [intros X; discriminate X|]. destruct (parse_digits (r0 :: r') 0) as [v|] eqn:P; [|intros X; discriminate X].
+    destruct (Z.of_N v <=? two127)%Z eqn:T; [|intros X; discriminate X]. intros X. injection X as <-. split; [lia|].
+    pose proof (canon_digits_print (r0 :: r') v ltac:(discriminate) P) as C. unfold canon_digits in C.
+    destruct v as [|p].
+    + destruct (strip_zeros (r0 :: r')) as [|x t] eqn:S; [reflexivity|]. exfalso.
+      change (print_N 0) with [48] in C. injection C as -> ->.
+      pose proof (parse_digits_all _ _ _ P) as F. destruct (strip_zeros_spec _ F) as [_ [_ [E | [c' [t' [E Hc]]]]]]; rewrite S in E; [discriminate|].
+      injection E as <- <-. apply Hc. reflexivity.
+    + destruct (strip_zeros (r0 :: r')) as [|x t] eqn:S.
+      * exfalso. pose proof (print_N_canon (N.pos p)) as [[Z0 _] | [_ [c' [t' [E Hc]]]]]; [discriminate|]. rewrite E in C. injection C as <- _. apply Hc. reflexivity.
+      * cbn [Z.of_N Z.opp print_Z]. rewrite C. reflexivity.
+  - remember (c :: r) as body eqn:B0. destruct (parse_digits body 0) as [v|] eqn:P; [|discriminate].
+    destruct (Z.of_N v <? two127)%Z eqn:T; [|discriminate]. intros X. injection X as <-. split; [lia|].
+    rewrite (canon_digits_print body v ltac:(subst body; discriminate) P). destruct v; reflexivity.
+Qed.
+
+(* the non-canonical literals the Rust parsers accept by design *)
+Example parse_noncanonical_accepted :
+  parse_u64 [43; 49] = Ok 1 /\ parse_u64 [48; 48; 55] = Ok 7 /\                       (* "+1", "007" *)
+  parse_i128 [45; 48] = Ok 0%Z /\ parse_i128 [43; 48; 53] = Ok 5%Z /\                  (* "-0", "+05" *)
+  parse_bigint [49; 95; 48] = Ok 10%Z /\ parse_bigint [45; 48; 95] = Ok 0%Z.           (* "1_0", "-0_" *)
+Proof. repeat split; vm_compute; reflexivity. Qed.
+
+Lemma parse_digits_us_drop ds : forall a, parse_digits_us ds a = parse_digits (drop_underscores ds) a.
+Proof.
+  induction ds as [|c r IH]; intros a; [reflexivity|]. cbn [parse_digits_us drop_underscores filter].
+  destruct (c =? ch_underscore) eqn:U; cbn [negb]; [apply IH|]. cbn [parse_digits].
+  destruct (is_digit c); [apply IH | reflexivity].
+Qed.
+
+Lemma parse_biguint_canon s n : parse_biguint s = Ok n -> canon_digits (biguint_body s) = print_N n /\ Forall digit (biguint_body s).
+Proof.
+  unfold parse_biguint, biguint_body.
+  set (s1 := match s with [] => s | c :: tail => if (c =? ch_plus) && negb (starts_with ch_plus tail) then tail else s end).
+  destruct s1 as [|c r]; [discriminate|]. destruct (c =? ch_underscore) eqn:U; [discriminate|].
+  destruct (parse_digits_us (c :: r) 0) as [v|] eqn:P; [|discriminate]. intros X. injection X as <-.
+  rewrite parse_digits_us_drop in P.
+  assert (NE : drop_underscores (c :: r) <> []) by (cbn [drop_underscores filter]; rewrite U; discriminate).
+  split; [apply canon_digits_print; assumption | eapply parse_digits_all; exact P].
+Qed.
+
+Lemma parse_biguint_minus tail : parse_biguint (ch_minus :: tail) = Err.
+Proof. reflexivity. Qed.
+
+(* BigInt::from_str: an accepted text is the printed number up to the sign rules, underscores and leading zeros *)
+Theorem parse_bigint_canon s z : parse_bigint s = Ok z -> canon_bigint s = print_Z z.
+Proof.
+  unfold parse_bigint, canon_bigint. destruct s as [|c tail]; [discriminate|].
+  destruct (c =? ch_minus) eqn:M.
+  - destruct (starts_with ch_plus tail) eqn:SP.
+    + (* "-+…": BigUint sees the '-' and rejects *)
+      apply N.eqb_eq in M. subst c. rewrite (parse_biguint_minus tail). discriminate.
+    + destruct (parse_biguint tail) as [n| | |] eqn:P; try discriminate. cbn [bind]. intros X. injection X as <-.
+      destruct (parse_biguint_canon tail n P) as [C F]. unfold canon_digits in C.
+      destruct n as [|p].
+      * destruct (strip_zeros (biguint_body tail)) as [|x t] eqn:S; [reflexivity|]. exfalso.
+        change (print_N 0) with [48] in C. injection C as -> ->.
+        destruct (strip_zeros_spec _ F) as [_ [_ [E | [c' [t' [E Hc]]]]]]; rewrite S in E; [discriminate|].
+        injection E as <- <-. apply Hc. reflexivity.
+      * destruct (strip_zeros (biguint_body tail)) as [|x t] eqn:S.
+        -- exfalso. pose proof (print_N_canon (N.pos p)) as [[Z0 _] | [_ [c' [t' [E Hc]]]]]; [discriminate|].
+           rewrite E in C. injection C as <- _. apply Hc. reflexivity.
+        -- cbn [Z.of_N Z.opp print_Z]. rewrite C. reflexivity.
+  - destruct (parse_biguint (c :: tail)) as [n| | |] eqn:P; try discriminate. cbn [bind]. intros X. injection X as <-.
+    destruct (parse_biguint_canon _ n P) as [C _]. rewrite C. destruct n; reflexivity.
+Qed.
